@@ -5,6 +5,7 @@
 -/
 import Robotools.Model.Save
 import Robotools.Model.World
+import Robotools.Proofs.SaveLemmas
 namespace Robotools.C17
 open Robotools
 
@@ -14,42 +15,121 @@ def RecsWF (recs : List (List Char)) : Prop := ∀ r ∈ recs, '\r' ∉ r ∧ '\
 /-- Reading the file back and splitting at CRLF returns the record list. -/
 theorem read_back (recs : List (List Char)) (hne : recs ≠ []) (h : RecsWF recs) :
     splitCRLF (fileChars recs) = recs := by
-  sorry
+  induction recs with
+  | nil => exact absurd rfl hne
+  | cons r rest ih =>
+    have hr := h r (by simp)
+    cases rest with
+    | nil => rw [fileChars_singleton r hr.2, splitCRLF_of_not_mem r hr.1]
+    | cons r' rest' =>
+      have hwf : RecsWF (r' :: rest') := fun x hx => h x (List.mem_cons_of_mem _ hx)
+      rw [fileChars_cons_cons r r' rest' hr.2, splitCRLF_append_crlf r _ hr.1,
+        ih (by simp) hwf]
 
 /-- An empty worklist writes an empty file. -/
 theorem empty_file : fileChars [] = [] := by
-  sorry
+  rfl
 
 /-- No trailing line break: the file ends with the last character of the last record. -/
 theorem no_trailing_break (recs : List (List Char)) (last : List Char) (c : Char)
     (h : RecsWF recs) (hl : recs.getLast? = some last) (hc : last.getLast? = some c) :
     (fileChars recs).getLast? = some c := by
-  sorry
+  induction recs with
+  | nil => simp at hl
+  | cons r rest ih =>
+    have hr := h r (by simp)
+    cases rest with
+    | nil =>
+      simp at hl
+      subst hl
+      rw [fileChars_singleton r hr.2]; exact hc
+    | cons r' rest' =>
+      have hwf : RecsWF (r' :: rest') := fun x hx => h x (List.mem_cons_of_mem _ hx)
+      have hl' : (r' :: rest').getLast? = some last := by
+        rw [List.getLast?_cons_cons] at hl; exact hl
+      have := ih hwf hl'
+      rw [fileChars_cons_cons r r' rest' hr.2, List.getLast?_append]
+      cases hf : fileChars (r' :: rest') with
+      | nil => rw [hf] at this; simp at this
+      | cons a t =>
+        rw [hf] at this
+        simp only [List.getLast?_cons_cons]
+        rw [this]; rfl
 
 /-- The records are joined by exactly CRLF: the file is the CRLF-intercalation of the records. -/
 theorem file_is_crlf_join (recs : List (List Char)) (h : RecsWF recs) :
     fileChars recs = ['\r', '\n'].intercalate recs := by
-  sorry
+  induction recs with
+  | nil => rfl
+  | cons r rest ih =>
+    have hr := h r (by simp)
+    cases rest with
+    | nil => rw [fileChars_singleton r hr.2, List.intercalate_singleton]
+    | cons r' rest' =>
+      have hwf : RecsWF (r' :: rest') := fun x hx => h x (List.mem_cons_of_mem _ hx)
+      rw [fileChars_cons_cons r r' rest' hr.2, intercalate_crlf_cons_cons, ih hwf]
 
 /-- Latin-1 encoding is defined for characters up to U+00FF and decodes back to the same text. -/
 theorem latin1_round_trip (l : List Char) (h : ∀ c ∈ l, c.toNat < 256) :
     ∃ bs, latin1Encode l = some bs ∧ latin1Decode bs = l ∧ bs.length = l.length ∧ ∀ b ∈ bs, b < 256 := by
-  sorry
+  induction l with
+  | nil => exact ⟨[], rfl, rfl, rfl, by simp⟩
+  | cons c t ih =>
+    obtain ⟨bs, h1, h2, h3, h4⟩ := ih (fun x hx => h x (List.mem_cons_of_mem _ hx))
+    have hc : c.toNat < 256 := h c (by simp)
+    refine ⟨c.toNat :: bs, ?_, ?_, ?_, ?_⟩
+    · rw [latin1Encode_cons, h1]; simp [hc]
+    · simp only [latin1Decode, List.map_cons] at h2 ⊢
+      rw [h2, Char.ofNat_toNat]
+    · simp [h3]
+    · intro b hb
+      rcases List.mem_cons.1 hb with rfl | hb
+      · exact hc
+      · exact h4 b hb
 
 theorem latin1_rejects (l : List Char) (c : Char) (hc : c ∈ l) (h : 256 ≤ c.toNat) : latin1Encode l = none := by
-  sorry
+  induction l with
+  | nil => simp at hc
+  | cons a t ih =>
+    rw [latin1Encode_cons]
+    rcases List.mem_cons.1 hc with rfl | hc
+    · have : ¬ c.toNat < 256 := by omega
+      simp [this]
+    · rw [ih hc]
+      split <;> simp
 
 /-- File names: exactly the names ending in `.gwl` (any case, with a non-empty stem) are accepted. -/
 theorem gwl_suffix_iff (name : List Char) :
     hasGwlSuffix name = true ↔ 4 < name.length ∧ (name.drop (name.length - 4)).map Char.toLower = ['.', 'g', 'w', 'l'] := by
-  sorry
+  simp [hasGwlSuffix, List.map_drop]
 
 /-- Records produced by the worklist model never contain line breaks when the text arguments do not:
     comment records are split at line feeds and stripped (CR is stripped as white space only at the
     ends, hence the hypothesis on CR). -/
 theorem comment_recs_wf (s : String) (rs : List Rec) (hcr : '\r' ∉ s.toList) (h : commentRecs (some s) = .ok rs) :
     RecsWF (rs.map Rec.renderChars) := by
-  sorry
+  simp only [commentRecs] at h
+  split at h
+  · cases h; intro r hr; simp at hr
+  · split at h
+    · cases h
+    · cases h
+      intro r hr
+      simp only [List.mem_map, List.mem_filterMap] at hr
+      obtain ⟨rc, ⟨l, hl, hrc⟩, rfl⟩ := hr
+      split at hrc
+      · cases hrc
+      · cases hrc
+        have key : ∀ c ∈ stripChars l, c ∈ s.toList ∧ c ≠ '\n' := fun c hc =>
+          mem_splitOn_piece '\n' s.toList l hl c (mem_of_mem_stripChars l c hc)
+        simp only [Rec.renderChars, String.toList_ofList]
+        constructor
+        · intro hm
+          simp at hm
+          exact hcr (key _ hm).1
+        · intro hm
+          simp at hm
+          exact (key _ hm).2 rfl
 
 example : splitCRLF (fileChars ["A;x".toList, "W1;".toList]) = ["A;x".toList, "W1;".toList] := by decide
 example : fileBytes ["C;µ".toList] = some [67, 59, 181] := by decide
